@@ -98,12 +98,27 @@ SyncDb ==
                                                            ELSE inst[i]]
     /\ lastop' = <<"syncdb">> /\ UNCHANGED <<reg, hnd, nid>>
 
+\* the database and every handle are dropped (end of a session): each instance's file buffers flush on drop
+\* (rabuf Drop, AbyBuf.Drop); with two dirty instances over one name the files keep whichever dropped last
+DropAll ==
+    /\ inst # <<>>
+    /\ \E pick \in [DOMAIN disk -> (DOMAIN inst) \cup {0}] :
+          /\ \A nm \in DOMAIN disk :
+                IF \E i \in DOMAIN inst : inst[i].name = nm /\ inst[i].dirty
+                THEN pick[nm] \in DOMAIN inst /\ inst[pick[nm]].name = nm /\ inst[pick[nm]].dirty
+                ELSE pick[nm] = 0
+          /\ disk' = [nm \in DOMAIN disk |-> IF pick[nm] = 0 THEN disk[nm]
+                                                 ELSE [sig |-> disk[nm].sig, kt |-> disk[nm].kt, content |-> inst[pick[nm]].content]]
+    /\ inst' = <<>> /\ reg' = [t \in Types |-> <<>>] /\ hnd' = <<>>
+    /\ lastop' = <<"dropall">> /\ UNCHANGED nid
+
 Next == \/ \E h \in Handles, t \in Types, nm \in Names, wp \in BOOLEAN : GetMap(h, t, nm, wp)
         \/ \E h, g \in Handles : CloneHandle(h, g)
         \/ \E h \in Handles, k \in Keys, v \in Vals : Put(h, k, v)
         \/ \E h \in Handles, k \in Keys : Del(h, k)
         \/ \E h \in Handles : Flush(h)
         \/ SyncDb
+        \/ DropAll
 Spec == Init /\ [][Next]_vars
 
 View(h) == inst[hnd[h]].content
@@ -117,6 +132,11 @@ TypeSafe == \A i \in DOMAIN inst : disk[inst[i].name].kt = inst[i].kt
 (* C03: after a flush through any handle of a name, or a database sync, the files hold what every handle of the name observes *)
 FlushDurable == (lastop[1] = "flush" => \A h \in DOMAIN hnd : inst[hnd[h]].name = lastop[3] => disk[lastop[3]].content = View(h))
              /\ (lastop[1] = "syncdb" => \A h \in DOMAIN hnd : disk[inst[hnd[h]].name].content = View(h))
+(* C02: what any handle observed at the end of a session is what the files hold afterwards (and so what the next session reads) *)
+CloseDurableStep == lastop'[1] = "dropall" => \A h \in DOMAIN hnd : disk'[inst[hnd[h]].name].content = View(h)
+CloseDurable == [][CloseDurableStep]_vars
+(* C02: a new instance starts from what is on disk *)
+OpenReadsDisk == [][lastop'[1] = "open" => inst'[nid].content = disk[lastop'[3]].content]_vars
 (* every instance is reachable through its registry (so that the database-level sync reaches it) *)
 Registered == \A i \in DOMAIN inst : inst[i].name \in DOMAIN reg[inst[i].kt] /\ reg[inst[i].kt][inst[i].name] = i
 =============================================================================
